@@ -304,6 +304,23 @@ theorem foldl_ridStep_mem (ids : List Bytes) (fs : Cp)
       right; rw [hown y (List.mem_cons_self ..) hy.2]; exact hy.1
     · exact h
 
+/-- what the NEW key may already hold: nothing of the ids, or what a rename cut after its first
+    HSET left — fields of the ids that read `X` in `d` and are smaller than `X` in every other
+    database (so the theorem also covers the re-run after such a cut) -/
+structure LocOk (ids : List Bytes) (t : Target) (loc : Bytes) (d : Nat) (X : Int) : Prop where
+  parses : ∀ db, Parses ids (t.cps db loc)
+  below : ∀ db, db ≠ d → OffBelow ids (t.cps db loc) X
+  atd : offOf ids (t.cps d loc) = X ∨ ∀ e ∈ t.cps d loc, matchId ids e.rid = false
+  ridok : ∀ db, ∀ e ∈ t.cps db loc, ridSel ids e = true → e.val ≠ qmark
+
+/-- a key holding no field of the ids is fine -/
+theorem LocOk.of_fresh {ids : List Bytes} {t : Target} {loc : Bytes} {d : Nat} {X : Int}
+    (h : ∀ db, ∀ e ∈ t.cps db loc, matchId ids e.rid = false) : LocOk ids t loc d X :=
+  ⟨fun db e he hm => by rw [h db e he] at hm; exact absurd hm (by decide),
+   fun db _ e he hs => by rw [offSel_iff, h db e he] at hs; exact absurd hs.1 (by decide),
+   Or.inr (h d),
+   fun db e he hs => by rw [ridSel_iff, h db e he] at hs; exact absurd hs.1 (by decide)⟩
+
 /-- hypotheses of `update_prefix_safe` on the state before the operation -/
 structure UpdPre (id1 id2 loc : Bytes) (t₀ : Target) (n r : Bytes) (d : Nat) (X : Int) (now : Int) : Prop where
   hne : id1 ≠ id2
@@ -315,7 +332,7 @@ structure UpdPre (id1 id2 loc : Bytes) (t₀ : Target) (n r : Bytes) (d : Nat) (
   hn0 : n ≠ []
   holds : Holds [id1, id2] t₀ n d X
   own : RunidOwn t₀ n
-  fresh : n ≠ loc → ∀ db, ∀ e ∈ t₀.cps db loc, matchId [id1, id2] e.rid = false
+  fresh : n ≠ loc → LocOk [id1, id2] t₀ loc d X
   orphan : n = loc → ridOf [id1, id2] (t₀.cps d n) = id1 → Carrier id2 t₀ n d X
   hnow : -(2^63 : Int) ≤ now ∧ now < 2^63
 
@@ -440,7 +457,7 @@ theorem update_prefix_inv (ver : Bytes) {id1 id2 loc : Bytes} {t₀ : Target} {n
           rcases (matchId_pair id1 id2 _).mp hs.1 with h | h <;> rw [h]
           · exact P.h1q
           · exact P.h2q
-        · rw [ridSel_iff, P.fresh hnl db e he] at hs; exact absurd hs.1 (by decide)
+        · exact (P.fresh hnl).ridok db e he hs
       intro db e he hs
       rw [hcps2, hcps1] at he
       split at he
@@ -486,23 +503,21 @@ theorem update_prefix_inv (ver : Bytes) {id1 id2 loc : Bytes} {t₀ : Target} {n
             by_cases hdb : db = d
             · subst hdb
               simp only [and_self, if_true]
-              apply written_parses w
-              intro e he hm; rw [hfr db e he] at hm; exact absurd hm (by decide)
+              exact written_parses w (hfr.parses db)
             · simp only [hdb, false_and, if_false]
-              intro e he hm; rw [hfr db e he] at hm; exact absurd hm (by decide)
+              exact hfr.parses db
           · rw [hcps2, hcps1]; simp only [and_self, if_true]
-            apply written_off_fresh w hm1
-            intro e he hs
-            rw [offSel_iff, hfr d e he] at hs; exact absurd hs.1 (by decide)
+            rcases hfr.atd with hx | hno
+            · exact written_off_same w hm1 (hfr.parses d) hx
+            · apply written_off_fresh w hm1
+              intro e he hs
+              rw [offSel_iff, hno e he] at hs; exact absurd hs.1 (by decide)
           · rw [hcps2, hcps1]; simp only [and_self, if_true]
-            apply written_rid w hm1
-            intro e he hs
-            rw [ridSel_iff, hfr d e he] at hs; exact absurd hs.1 (by decide)
+            exact written_rid w hm1 (hfr.ridok d)
           · intro db hdb
             rw [hcps2, hcps1]
             simp only [hdb, false_and, if_false]
-            intro e he hs
-            rw [offSel_iff, hfr db e he] at hs; exact absurd hs.1 (by decide)
+            exact hfr.below db hdb
         · unfold Carrier
           rw [hcps2, hcps1]; simp only [and_self, if_true]
           constructor
@@ -513,9 +528,10 @@ theorem update_prefix_inv (ver : Bytes) {id1 id2 loc : Bytes} {t₀ : Target} {n
             rw [hs.1, hs.2]
           · apply written_rid w ((matchId_one id1 id1).mpr rfl)
             intro e he hs
+            apply hfr.ridok d e he
             rw [ridSel_iff, matchId_one] at hs
-            have := hfr d e he
-            rw [hs.1] at this; rw [hm1] at this; exact absurd this (by decide)
+            rw [ridSel_iff, matchId_pair]
+            exact ⟨Or.inl hs.1, hs.2⟩
     obtain ⟨A, hA, hAold, hinv⟩ := hinv2
     have hsafe := safe_updRest (id1 := id1) (id2 := id2) (A := A) (loc := loc) (d := d) o2 hAold
     have := inv_applyAll P.hne P.h1 hA ((updRest n c'.runId id1 o2).take k) hinv
